@@ -40,10 +40,12 @@ def tasks(tier):
                                         [("Retry.execute", "AsyncRetry.call"),
                                          ("Policy.call", "AsyncRetry.execute"),
                                          ("Retry.call", "Retry.execute")]):
-        cfg = dict(M=3, alphabet=["x:T", "ok", "r:T"], max_unknown=None,
-                   budget={"max": mx, "window": W}, strat_menu=[1, 0])
+        cfg = dict(M=3 if tier == "thorough" else 2,
+                   alphabet=["x:T", "ok", "r:T"] if tier == "thorough" else ["x:T", "ok"],
+                   max_unknown=None,
+                   budget={"max": mx, "window": W}, strat_menu=[1, 0], durs=[0, W - 1])
         prefixes = [["ok"]] + [[a, b2] for a in ("x:T", "r:T") for b2 in ("ok", "x:T", "r:T")]
-        for sp in prefixes if mx == 2 else [None]:
+        for sp in prefixes if (mx == 2 and tier == "thorough") else [None]:
             out.append({"family": "budget-shared", "cfg": dict(cfg, script_prefix=sp),
                         "entry": pat[0], "bound": 1, "entries": list(pat),
                         "ncalls": 3 if tier == "quick" else 4, "ticks": sorted({0, 1, W}),
@@ -62,7 +64,7 @@ def monitor_shared(w, cfg):
     specs = {inc: BudgetSpec(b["max"], W, inc) for inc in (False, True)}
     pending_retry = 0
     for r in w.trace:
-        if r[0] == "consume":
+        if r[0] in ("consume", "consume_x"):
             t = r[2]
             for inc, s in list(specs.items()):
                 if s.consume(1, t) != r[1]:
@@ -71,6 +73,10 @@ def monitor_shared(w, cfg):
                 v.append(("c10.budget-diverges", f"consume() at t={t} answered {r[1]} with grants "
                                                  f"{grants}; no reference convention agrees"))
                 break
+            if r[0] == "consume_x":
+                if r[1]:
+                    grants.append(t)
+                continue
             if r[1]:
                 grants.append(t)
                 pending_retry += 1
